@@ -822,7 +822,7 @@ class ValueDate(Value):
         return ValueString(str(self))
 
     def asInt(self):
-        return ValueInt(math.trunc(to_oa_date(self.value)))
+        return ValueInt(math.floor(to_oa_date(self.value)))
 
     def asDecimal(self):
         return ValueDecimal(to_oa_date(self.value))
